@@ -62,6 +62,27 @@ add('C20', 'TLC breadth-first exploration of a list+index reference model (Buffe
     'cursor after every call; random long in-range walks recorded from the real class are validated event by event by TLC.',
     'In-range moves only; bounded sequence length and operation alphabet.', '7 (C20)')
 
+DOCGEN = ('TLC generation of all well-formed documents in scope by DocGen.tla (derivation machine with adjacency guards), reader '
+          'machine run on each, ')
+add('C01', DOCGEN + 'RoundTrip + slice invariants; replay of every document on the real parser; DocsTrace validation of corpus parses',
+    'Every document derivable within the node budget is generated by TLC with its oracle; TLC checks the round trip and the '
+    'slice clause on the reader machine and each document is replayed on the real parser (exact text, every node and text token a '
+    'slice of the source at its recorded offset); corpus documents parsed by the real code are validated by TLC under a lexical '
+    'hypothesis.', 'Bounded node budget / depth / siblings; oracle soundness rests on guards G1..G11 and UnparseInjective-style review.', '7 (C01)')
+add('C02', DOCGEN + 'StructureWF (abstract machine tree = generating syntax tree); replay: abstract projection of the real tree = oracle',
+    'The generating syntax tree is the oracle; TLC checks that the reader machine reproduces it and the real tree of every generated '
+    'document is compared with it (names, argument kinds/order/contents, nesting, item ownership, definitions).',
+    'Bounded node budget; adjacent text leaves merged before comparison.', '7 (C02)')
+add('C03', DOCGEN + 'FindAll on the oracle for every root x query; replay of find_all/find/count/attribute/list queries on the real tree',
+    'TLC computes the exact answer of every query (names, absent name, full expressions, \\begin{name}) at every search root on the '
+    'oracle tree and checks the machine tree agrees; the real search API is compared with it for every root and query.',
+    'Bounded node budget; result order unconstrained.', '7 (C03)')
+add('C13', DOCGEN + 'node offsets from Unparse, regex family hits, LineCol.tla over all short {letter,LF} strings; replay of '
+    'position / char_pos_to_line / search_regex; DocsTrace validation on corpus',
+    'TLC supplies the offset of every node, the expected regex matches and the (line, column) of every offset of every short '
+    'string; the real positions, char_pos_to_line (ascending and descending lookup order) and search_regex are compared with them; '
+    'corpus parses are validated by TLC.', 'Bounded budget and string length; LF line structure; fixed regex family.', '7 (C13)')
+
 NOT_YET = 'check not built yet in this round (planned, see DESIGN.md section 7)'
 
 
